@@ -193,6 +193,62 @@ func init() {
 	models["math/rand.Seed"] = func(p *Path, fn *ssa.Function, a []Value) Value { return nil }
 	models["math/rand.Intn"] = modelRandIntn
 	models["math.Log"] = modelLog
+	models["math.Sqrt"] = modelSqrt
+	// blake3 streaming interface: the bytes written are collected, Sum is the same
+	// uninterpreted function of them as Sum256
+	models["lukechampine.com/blake3.New"] = func(p *Path, fn *ssa.Function, a []Value) Value {
+		if n, ok := a[0].(int64); !ok || n != 32 {
+			panic(unsupported("blake3.New with a digest size other than 32"))
+		}
+		return &Native{V: &blakeHasher{}}
+	}
+	models["(*lukechampine.com/blake3.Hasher).Write"] = func(p *Path, fn *ssa.Function, a []Value) Value {
+		h := a[0].(*Native).V.(*blakeHasher)
+		sl := a[1].(Slice)
+		h.data = append(h.data, sl.A...)
+		return Tuple{int64(len(sl.A)), Iface{}}
+	}
+	models["(*lukechampine.com/blake3.Hasher).Reset"] = func(p *Path, fn *ssa.Function, a []Value) Value {
+		a[0].(*Native).V.(*blakeHasher).data = nil
+		return nil
+	}
+	models["(*lukechampine.com/blake3.Hasher).Sum"] = func(p *Path, fn *ssa.Function, a []Value) Value {
+		h := a[0].(*Native).V.(*blakeHasher)
+		d := modelBlake3(p, fn, []Value{Slice{A: h.data}}).(Array)
+		pre, _ := a[1].(Slice)
+		out := append(append([]Value(nil), pre.A...), []Value(d)...)
+		return Slice{A: out}
+	}
+}
+
+type blakeHasher struct{ data []Value }
+
+// modelSqrt: math.Sqrt on a symbolic real is a fresh real y with y >= 0 and y*y = x (x >= 0).
+func modelSqrt(p *Path, fn *ssa.Function, a []Value) Value {
+	if f, ok := a[0].(float64); ok {
+		return math.Sqrt(f)
+	}
+	if !p.realMode {
+		panic(unsupported("math.Sqrt of a symbolic float outside real mode"))
+	}
+	tt := p.tt()
+	x := a[0].(*Term)
+	if x.Op == OpRConst {
+		f, _ := x.R.Float64()
+		return tt.RConstF(math.Sqrt(f)) // rounding is outside the claim in real mode
+	}
+	zero := tt.RConstF(0)
+	if p.Decide(tt.Cmp(OpRLt, x, zero)) {
+		return math.NaN()
+	}
+	name := fmt.Sprintf("sqrt%d", len(p.vars))
+	v := tt.NewVar(name, RealSort, nil)
+	p.vars = append(p.vars, v)
+	p.draws = append(p.draws, Draw{Kind: "real", Dom: "sqrt", vars: []*Var{v}})
+	p.pc = append(p.pc, tt.Cmp(OpRLe, zero, v.T), tt.Eq(tt.RBin(OpRMul, v.T, v.T), x))
+	p.stubsHit["math.Sqrt (a non-negative real whose square is the argument)"] = true
+	p.model = nil
+	return v.T
 }
 
 // modelLog: math.Log on a symbolic real is an uninterpreted, strictly monotone function.
